@@ -44,8 +44,8 @@ type caseData struct {
 	DeadlineMS int    `json:"dl,omitempty"`     // context deadline of the evaluation (default 250 ms)
 	FullStack  bool   `json:"fullstack,omitempty"`
 	NoIface    bool   `json:"noiface,omitempty"` // do not call Interface() on the returned value
-	Enum       bool   `json:"enum,omitempty"` // not an input: enumerate builtins and methods
-	Key        string `json:"key,omitempty"`  // the case id (written to the stage log)
+	Enum       bool   `json:"enum,omitempty"`    // not an input: enumerate builtins and methods
+	Key        string `json:"key,omitempty"`     // the case id (written to the stage log)
 
 	Script *scriptSpec `json:"script,omitempty"` // how a script was put together (for control variants)
 }
@@ -76,8 +76,8 @@ type obs struct {
 // process-level guards: stage log, watchdog, memory guard
 
 const (
-	screenStack   = 16 << 20 // bytes: native stack limit while screening (a confirmation run uses Go's default 1 GB)
-	heapGuard     = 5 << 30  // bytes of live heap objects at which the worker gives up (inconclusive)
+	screenStack   = 16 << 20         // bytes: native stack limit while screening (a confirmation run uses Go's default 1 GB)
+	heapGuard     = 5 << 30          // bytes of live heap objects at which the worker gives up (inconclusive)
 	caseWatchdog  = 10 * time.Second // 3x for cases that run with the default stack (deep nesting, deep data)
 	markerOOM     = "VERIF-C03-MEMORY-GUARD"
 	markerHang    = "VERIF-C03-WATCHDOG"
